@@ -21,7 +21,7 @@ Proof.
 Qed.
 Lemma hobs_eqb_refl a : hobs_eqb a a = true.
 Proof.
-  unfold hobs_eqb. rewrite (list_eqb_refl _ call_eqb_refl), N.eqb_refl. cbn [andb].
+  unfold hobs_eqb. rewrite (list_eqb_refl _ call_eqb_refl), N.eqb_refl, opt_str_eqb_refl. cbn [andb].
   destruct (h_tc a); [apply tcobs_eqb_refl|reflexivity].
 Qed.
 Lemma ohobs_eqb_refl a : ohobs_eqb a a = true.
